@@ -207,18 +207,35 @@ theorem C14_tc_bit (m : Msg) (hwf : WFMsg m) (hfit : FitAll m) (pks : List Bytes
       decide
     · intro w hw; rw [hb w hw]; exact hno
 
-/-- **"… unless it carries a single entry that cannot be smaller".**  A datagram of more than 1460 bytes is exactly as long as
-the datagram that carries one entry of the message *alone*: the 12-byte header and that entry written at offset 12 with an
-empty names table (`questionAloneSize` / `recordAloneSize`) — nothing else is in it, and no datagram could carry that entry
-in fewer bytes.  Holds for every message for which the builder returns (no well-formedness needed: the 8966-byte allowance
-is only ever granted to the first entry tried in a fresh packet).  With `C14_sizes` (`entryCount w = 1`) this is the clause
-at full strength. -/
+/-! ### sizes without any well-formedness hypothesis
+
+`C14_sizes`, `C14_counts`, `C14_partition`, `C14_tc` speak through the strict decoder and therefore carry `WFMsg`, whose
+`WFName` bounds a name by 255 wire octets / 253 characters — C01's D21 narrowing, **which C14's own quantifier does not
+contain** (recorded as a narrowing of C14 in `known_findings.json` under D21 and in the manifest; the harness judges such
+messages with the Python strict decoder that applies no total-length rule).  The two size clauses do not need the decoder and
+are proved for **every** message for which the builder returns: -/
+
+/-- **no datagram exceeds 8966 bytes**, whatever the message (names of any length included) -/
+theorem C14_size_limit_any (m : Msg) (pks : List Bytes) (h : packets m = .ok pks) : ∀ p ∈ pks, p.length ≤ 8966 :=
+  fun p hp => (packetsLoop_lone m _ _ pks h p hp).1
+
+/-- **"… unless it carries a single entry that cannot be smaller".**  A datagram of more than 1460 bytes **is** the 12-byte
+header followed by exactly the bytes that one entry `x` of the message takes when it is written alone, at offset 12 with an
+empty names table (`LoneBody`: `encQuestion/encRecord mc 12 [] x = .ok (p.drop 12, _)`) — nothing else is in it — and so it
+is exactly as long as the smallest datagram that can carry `x` (`LoneSize`: `questionAloneSize` / `recordAloneSize`).  The
+statement is about the bytes: *which* entry `x` is, is named by the existential (an entry of `m`); that the strict decoder
+reads this datagram back as that one entry is `C14_sizes` (`entryCount w = 1`) + `C14_partition`, for `WFMsg`.  No
+well-formedness needed here: the 8966-byte allowance is only ever granted to the first entry tried in a fresh packet. -/
 theorem C14_large_is_lone_entry (m : Msg) (pks : List Bytes) (h : packets m = .ok pks) :
-    ∀ p ∈ pks, 1460 < p.length → LoneSize m p.length := by
+    ∀ p ∈ pks, 1460 < p.length → LoneBody m (p.drop 12) ∧ LoneSize m p.length := by
   intro p hp hbig
-  rcases packetsLoop_lone m _ _ pks h p hp with h1 | h1
+  rcases (packetsLoop_lone m _ _ pks h p hp).2 with h1 | h1
   · omega
-  · exact h1
+  · refine ⟨h1, ?_⟩
+    have := h1.size
+    rw [List.length_drop] at this
+    rw [show 12 + (p.length - 12) = p.length by omega] at this
+    exact this
 
 /-! ### the send path: `Zeroconf.async_send` (anchored mechanism "async_send drops packets above the absolute limit") -/
 
